@@ -639,6 +639,14 @@ func streamMutations(sink *Sink, rng *rand.Rand, tier string, scratch string) {
 				break
 			}
 			base := h.honest(s)
+			// the genuine proof first passes verification in requests that do not spend it (a swap refused for its outputs,
+			// a melt whose payment fails): anything remembered from those must not help a mutated copy later
+			h.OpSwap(mode{}, []inSpec{base}, []outSpec{{b: h.newB(h.newSecret(), 1, h.activeHandle()), amount: 1, ks: h.activeHandle(), point: false}})
+			if q := h.OpMeltQuote(mode{}, 1000, nil, 0, true, true, nil); q != nil && s.amount >= 2 {
+				h.ScriptPay(q, 1, 0)
+				h.ScriptLook(q, 1, 0)
+				h.OpMelt(mode{}, q, []inSpec{base}, false)
+			}
 			// amount -> every other denomination and some non-denominations (with the original C)
 			for _, d := range denoms {
 				if d != s.amount {
